@@ -213,6 +213,44 @@ claim("C08",
 PENDING_REASON = "check designed in DESIGN.md but not yet built in this tree; not claimed until it runs"
 
 
+
+# rules added after the seeded rounds (DESIGN.md section 8)
+ADDED = {
+ "C02": "Also (Q4) purity guards of the peephole rewrites decided by three-valued partial evaluation of the guard with the op fixed; "
+        "(Q5) the dead-variable usage state is monotone over the states its family can take.",
+ "C03": "Also (T4) per builtin, interpreter case == C form computed from gc0Builtin's source (abstract walk of the generator for the fixed "
+        "tag); (T5) no CCode fragment built by the generator is dropped; (T6) the state saved at a try block covers every interpreter "
+        "register a normal return restores.",
+ "C04": "The C form is computed from the generator's source (rules/ccoeval.py), not read off by hand. Also (B5) the ring-algebra cells of "
+        "the peephole table, forwarded from C02-Q1.",
+ "C05": "Also (W4 reduce) shape of foamSIntReduce (mask/width, one ShiftUp+Or per chunk, sign; other loop shapes are refused as analysis "
+        "broken); (W7) the compact index form is decided on every index field of the node; (W8) the length that selects a node's format is "
+        "the length the encoder writes.",
+ "C06": "Also (S4) condition folds start from the neutral element of their operator; (S5) known-condition context push/pop pairing and "
+        "then/else polarity.",
+ "C07": "Also (K3) a success exit reachable while compiling is guarded by the error count; (K5) unbalanced or unterminated conditional "
+        "directives are diagnosed for every IfState (guard coverage by partial evaluation); (K6) cdr(cdr(x)) only under a condition "
+        "establishing cdr(x); (K7) in the form checker a variant member of an AbSyn node is read only where its tag is established.",
+ "C08": "Also (D4) integer counters that are only ever incremented and never reset (state carried across the files of one invocation) "
+        "are either frozen with the reason they cannot reach an output, or a violation.",
+ "C09": "Also (G4) the cells holding the sweep's free-piece index lie inside their pages (= C10 T-carve).",
+ "C10": "Also (T-section) the page request for a new mixed section dominates the capacity formula of sectQmCount; (T-carve) bookkeeping "
+        "cells cut from a page by stoAllocInner number floor(bytes/size).",
+ "C12": "Also (J7) no JavaCode fragment built by the generator is dropped.",
+ "C13": "Also (U3) every step that passes the syntax gate reaches the binder, whose entry applies the pending roll-back.",
+ "C15": "Also (P5) messages grouped under one source excerpt are grouped by a key that identifies a physical line.",
+ "C16": "Also (M4) every comparison of the unit's statement total with -Csmax has the strictness of gc0OverSMax.",
+ "C17": "Also (R4) libChkHeader constrains name and offset of every entry in [start, numSect) (interval cover of its loops); (R5) no "
+        "file-derived header field steers a loop or an unguarded index before libChkHeader.",
+ "C18": "Also (O3) the checked close evaluated as straight-line code for 'error indicator set' and 'only fclose fails' reaches the "
+        "handler; (O4) rewind/clearerr/freopen only on streams all of whose values are read-mode opens.",
+ "C19": "Also (L2) the zero shortcut of DFloatSprint keeps the sign; (L4) single/double-precision sibling functions of xfloat.c and "
+        "foam_c.c are isomorphic under the family renaming (22 pairs).",
+}
+for _pid, _t in ADDED.items():
+    CLAIMED[_pid]["text"] += " " + _t
+    CLAIMED[_pid]["technique"] += "; partial evaluation of guards, sibling isomorphism, CFG must-pass-through and who-may-call rules over the same extractor"
+
 def main():
     checks = []
     for pid in sorted(CLAIMED):
